@@ -113,9 +113,10 @@ def run(chk):
     love(chk, repo, d, eq)
     # ---- R01.11 Love numbers of every requested type are read from the top row of that type's assembled solution (whole-driver symbolic execution)
     from . import solver_whole
-    solver_whole.assembled(chk, repo, None, None, 'R01.11', rule_span='R01.12')
-    chk.floor('R01.11', 20); chk.floor('R01.12', 20)
-    chk.floor('R01.1', 8 + 36 * 4 + 16 * 2 + 4 * 2); chk.floor('R01.2', 6); chk.floor('R01.3', 17); chk.floor('R01.5', 4)
+    solver_whole.guarded(chk, 'C01', lambda: solver_whole.assembled(chk, repo, None, None, 'R01.11', rule_span='R01.12'))
+    if not any(not o.ok for o in chk.obls):
+        chk.floor('R01.11', 20); chk.floor('R01.12', 20)
+    chk.floor('R01.1', 8 + 36 * 4 + 16 * 2 + 4 * 2); chk.floor('R01.2', 6); chk.floor('R01.3', 17); chk.floor('R01.5', 3)
     chk.assume('r, rho, g, K, omega > 0; mu complex; l treated as a symbolic real')
 
 
@@ -177,17 +178,4 @@ def love(chk, repo, d, eq):
     eq('R01.5', 'k = y5(surface) - 1', out.store[0], ys[4] - 1, where)
     eq('R01.5', 'h = g y1(surface)', out.store[1], g * ys[0], where)
     eq('R01.5', 'l = g y3(surface)', out.store[2], g * ys[2], where)
-    # call site in cf_radial_solver: surface row selected with stride num_output_ys at top_slice_i, offset ytype*MAX_NUM_Y
-    ms = repo.by_path('TidalPy/RadialSolver/solver.pyx')
-    fs = need_func(ms, 'cf_radial_solver')
-    calls = [n for n in ast.walk(fs) if isinstance(n, ast.Call) and isinstance(n.func, ast.Name) and n.func.id == 'find_love_cf']
-    ok = False; detail = 'call not found'
-    if calls:
-        c = calls[0]
-        # surface_solutions_ptr[y_i] = solution_ptr[top_slice_i * num_output_ys + lhs_y_index] with lhs_y_index = ytype_i * MAX_NUM_Y + y_i
-        src = {ast.unparse(n.targets[0]): ast.unparse(n.value) for n in ast.walk(fs) if isinstance(n, ast.Assign) and len(n.targets) == 1}
-        a = src.get('surface_solutions_ptr[y_i]', ''); b = src.get('lhs_y_index', '')
-        ok = a.replace(' ', '') == 'solution_ptr[top_slice_i*num_output_ys+lhs_y_index]' and b.replace(' ', '') == 'ytype_i*MAX_NUM_Y+y_i' and \
-            ast.unparse(c.args[0]).replace(' ', '') == '__addr__*solution.complex_love_ptr[ytype_i*3]' and ast.unparse(c.args[2]) == 'surface_gravity'
-        detail = f'{a} ; lhs_y_index = {b} ; args {[ast.unparse(x) for x in c.args]}'
-    chk.ob('R01.5', 'cf_radial_solver feeds find_love_cf the top radial row of the requested solution type and the surface gravity, output at 3*ytype', ok, detail, ms.where(fs), method='AST index-expression agreement')
+    # the call site in cf_radial_solver (which row of which solution type is read, with which gravity) is decided on the whole driver: R01.11
